@@ -388,11 +388,20 @@ NextPhase(sz) ==
   ELSE phase
 
 (* ramp (simulation only): mostly insert absent keys while filling, mostly delete *)
-(* present ones while draining; ONE uniformly random candidate key per step, so  *)
-(* a step costs two evaluations of the operation instead of 2 * N                *)
-EligIns == {k \in Insertable : ~Has(m, k) /\ (phase = "fill" \/ size % 5 = 0)}
-EligDel == {k \in 1..N : Has(m, k) /\ (phase = "drain" \/ size % 7 = 0)}
-
+(* present ones while draining.  Candidates per step: one uniformly random key    *)
+(* plus the extreme ones (largest / smallest), so that a step costs a handful of  *)
+(* operation evaluations instead of 2 * N, and "fill a node to its capacity,      *)
+(* remove its largest / smallest child, add one again" happens often.  Churn      *)
+(* against the ramp is allowed exactly where it matters: at the node capacities   *)
+(* 4 / 16 / 48 while filling, right after the shrink points 3 / 12 / 37 while     *)
+(* draining, and at every 7th / 5th size.                                         *)
+ChurnUp   == size \in {4, 16, 48} \/ size % 7 = 0
+ChurnDown == size \in {3, 12, 37} \/ size % 5 = 0
+EligIns == {k \in Insertable : ~Has(m, k) /\ (phase = "fill" \/ ChurnDown)}
+EligDel == {k \in 1..N : Has(m, k) /\ (phase = "drain" \/ ChurnUp)}
+MaxOf(S) == CHOOSE x \in S : \A y \in S : y <= x
+MinOf(S) == CHOOSE x \in S : \A y \in S : x <= y
+Cands(S) == IF S = {} THEN {} ELSE {RandomElement(S), MaxOf(S), MinOf(S)}
 
 Insert(k) ==
   /\ Bounded
@@ -419,8 +428,8 @@ Delete(k) ==
 FullNext == (\E k \in Insertable : Insert(k)) \/ (\E k \in 1..N : Delete(k))
 
 RampNext ==
-  \/ (EligIns # {} /\ \E k \in {RandomElement(EligIns)} : Insert(k))
-  \/ (EligDel # {} /\ \E k \in {RandomElement(EligDel)} : Delete(k))
+  \/ \E k \in Cands(EligIns) : Insert(k)
+  \/ \E k \in Cands(EligDel) : Delete(k)
 
 Next == IF Ramp THEN RampNext ELSE FullNext
 
